@@ -174,7 +174,13 @@ def schema_case(rnd, hist_id):
         if r < 0.12:
             op = {'op': 'form.op', 'f': 'a', 'k': 'setconv', 'uid': {'idx': rnd.randrange(span)}, 'text': fg.fill(rnd, rnd.choice(CONVS), span, dangling=0.1)}
         elif r < 0.24:
-            op = {'op': 'form.op', 'f': 'a', 'k': rnd.choice(['setterm', 'setdef']), 'uid': {'idx': rnd.randrange(span)}, 'text': fg.fill(rnd, rnd.choice(TEXTS), span, dangling=0.1)}
+            kk = rnd.choice(['setterm', 'setdef'])
+            target = rnd.randrange(span)
+            # term texts with two references point only at constituents BEFORE their own: a term that reaches itself twice through
+            # term references doubles its resolved text with every refresh (outside this property; it only stalls the workload)
+            span_t = target if kk == 'setterm' else span
+            op = {'op': 'form.op', 'f': 'a', 'k': kk, 'uid': {'idx': target},
+                  'text': fg.fill(rnd, rnd.choice(TEXTS), span_t, dangling=0.1) if span_t > 0 else rnd.choice(['термин', '@{X77|nomn}'])}
         elif r < 0.34:
             # rename to a name that is a prefix / extension of another one, or one in use elsewhere
             op = {'op': 'form.op', 'f': 'a', 'k': 'setalias', 'uid': {'idx': rnd.randrange(span)}, 'subst': True,
